@@ -18,7 +18,7 @@ GEOMS_EXH_QUICK = [  # (nd, np, zmode, hashsize, ncontent, nfiles)
 ]
 GEOMS_EXH_THOROUGH = GEOMS_EXH_QUICK + [
     (4, 3, False, None, 1, 14), (3, 4, False, None, 1, 10), (4, 4, False, 4, 1, 12), (3, 5, False, None, 1, 8), (3, 6, False, None, 1, 8),
-    (4, 3, True, None, 2, 16), (2, 2, False, 2, 1, 5), (3, 2, False, None, 3, 1), (4, 6, False, None, 1, 18),
+    (4, 3, True, None, 2, 16), (2, 2, False, 4, 1, 5), (3, 2, False, None, 3, 1), (4, 6, False, None, 1, 18),
 ]
 
 
@@ -186,6 +186,71 @@ class Trial:
         shutil.rmtree(self.arr.root, ignore_errors=True)
 
 
+OBS_KEYS = {'parity-unaligned': 'F-C01-unaligned-parity-refused', 'grown-file': 'F-C01-grown-file-mtime-not-restored',
+            'no-blocks': 'F-C01-no-blocks-nothing-restored'}
+
+
+def report_obs(chk, name, msg, replay):
+    """an observation becomes a (known-finding) violation as soon as the lead lists its key in known_findings.json
+    (open: KNOWN-FINDING line; fixed: plain VIOLATION if the behaviour is still there); until then it is an evidence note"""
+    key = OBS_KEYS[name]
+    if any(k.get('property') == 'C01' and k.get('key') == key for k in chk.kf):
+        chk.violation('obs_' + name, msg, replay, finding_key=key)
+    else:
+        chk.notes.append('OBSERVATION %s (proposed key %s): %s' % (name, key, msg))
+
+
+def observations(chk, binary):
+    """Two behaviours at the edge of the property's damage class, measured on every run and recorded in the evidence notes
+    (not violations: the quantifier of C01 lists lost / truncated / flipped / corrupted, not these two shapes):
+    (1) a single-file parity whose size is not a multiple of the block size makes `fix` refuse outright;
+    (2) a file that GREW behind the tool's back is truncated by fix but its mtime is not restored."""
+    rng = random.Random(5)
+    out = {}
+    a = Array(binary, nd=2, np_=2)
+    a.write('d1', 'a', rng.randbytes(5000), mtime_ns=1700000000 * 10**9 + 5)
+    a.write('d2', 'c', rng.randbytes(7000), mtime_ns=1700000000 * 10**9 + 7)
+    if a.run('sync', '--test-force-murmur3').rc == 0:
+        sv = Saved(a)
+        f = a.parity_files[0][0]
+        data = open(f, 'rb').read()
+        open(f, 'wb').write(data[:3584])            # 3.5 blocks
+        os.unlink(a.path('d1', 'a'))
+        r = a.run('fix')
+        out['unaligned_parity'] = {'fix_rc': r.rc, 'stderr': r.err.strip().splitlines()[:2], 'file_restored': os.path.exists(a.path('d1', 'a'))}
+        if r.rc != 0:
+            report_obs(chk, 'parity-unaligned', 'with one of 2 parity files truncated to 3.5 blocks and a data file lost (within the parity level), `fix` exits %d without restoring anything: %s' % (r.rc, (r.err.strip().splitlines() or [''])[0][:160]),
+                       {'recipe': '2 data disks, 2 parities, blocksize 1; d1/a 5000 B, d2/c 7000 B; sync; truncate parity to 3584 bytes; rm d1/a; fix'})
+        restore(a, sv)
+        p = a.path('d1', 'a')
+        st0 = os.stat(p)
+        with open(p, 'ab') as fh:
+            fh.write(b'xxxx')
+        os.utime(p, ns=(st0.st_mtime_ns, st0.st_mtime_ns))
+        r = a.run('fix')
+        st1 = os.stat(p)
+        out['grown_file'] = {'fix_rc': r.rc, 'size_restored': st1.st_size == st0.st_size, 'mtime_restored': st1.st_mtime_ns == st0.st_mtime_ns}
+        if st1.st_size == st0.st_size and st1.st_mtime_ns != st0.st_mtime_ns:
+            report_obs(chk, 'grown-file', 'a file grown by 4 bytes (mtime kept) is truncated back by fix ("Fixed size") but its mtime is left at the time of the fix, although no other file has its size and time-stamp',
+                       {'recipe': 'd1/a 5000 B synced; append 4 bytes, restore mtime; fix; stat d1/a'})
+    shutil.rmtree(a.root, ignore_errors=True)
+    # an array made only of zero-size files, links and dirs: blockmax is 0 and state_check skips everything
+    a = Array(binary, nd=2, np_=1)
+    a.write('d1', 'empty', b'')
+    os.symlink('empty', a.path('d1', 'ln'))
+    os.makedirs(a.path('d2', 'ed'))
+    if a.run('sync', '--test-force-murmur3').rc == 0:
+        os.unlink(a.path('d1', 'empty')); os.unlink(a.path('d1', 'ln')); os.rmdir(a.path('d2', 'ed'))
+        r = a.run('fix')
+        back = [os.path.lexists(a.path('d1', 'empty')), os.path.lexists(a.path('d1', 'ln')), os.path.isdir(a.path('d2', 'ed'))]
+        out['only_empty_objects'] = {'fix_rc': r.rc, 'restored': back}
+        if not all(back):
+            report_obs(chk, 'no-blocks', 'in an array holding only a zero-size file, a symlink and an empty dir (no block at all), after their loss `fix` exits %d and restores %s of them (state_check skips the whole process when the parity size is 0)' % (r.rc, sum(back)),
+                       {'recipe': '2 data disks, 1 parity; d1/empty (0 bytes), symlink d1/ln -> empty, dir d2/ed; sync; remove the three; fix; nothing comes back, exit 0'})
+    shutil.rmtree(a.root, ignore_errors=True)
+    return out
+
+
 def main(tier, replay=None):
     chk = Check('C01', tier, 'proof')
     snap = snapshot_repo()
@@ -246,6 +311,10 @@ def main(tier, replay=None):
                     'arrays': tot['arrays'], 'blocks_damaged_in_patterns': tot['blocks'], 'fix_runs_replayed_by_model': tot['model'],
                     'traces_validated_against_impl': tot['model']})
     chk.cov['samples'] = samples
+    try:
+        chk.cov['observations'] = observations(chk, binary)
+    except Exception as e:
+        chk.notes.append('observations failed: %s' % e)
     if ob['failed'] and not chk.violations:
         chk.violation('obligation', 'proof obligation of C01 no longer checks: %s' % ob['failed'][0],
                       {'theorem_file': 'coq/Props/Properties_C01.v', 'failed': ob['failed'], 'log_tail': ob['log'][-1500:]}, no_input=True)
